@@ -210,7 +210,7 @@ register(
         "C16",
         S.gen_C16,
         S.run_C16,
-        2500,
+        8000,
         100000,
         "exploration",
         "2-3 generator requests (crawl-batch indexing, rule installation, webentity page query, network query, one-step writers) on a seeded pre-populated index, advanced by a seeded scheduler (5 policies) with every loop iteration a yield point; raw-store snapshot after every scheduler step; non-trivial when >= 1 context switch happened with a writer among >= 2 tasks; distinct = distinct event digests (schedule + write log); distinct_schedules also reported",
